@@ -251,15 +251,19 @@ func trunc(s string, n int) string {
 
 // panicked reports a recovered panic of a monitored request: library frame -> violation (continuing is safe, a
 // panicking request is treated as refused), harness frame -> harness bug.
-func (e *env) panicked(resp *opdrv.Resp, caseIdx int64, where string, witness any) bool {
+func (e *env) panicked(resp *opdrv.Resp, caseIdx int64, where string, witness func() any) bool {
 	if resp == nil || resp.Panic == nil {
 		return false
 	}
 	pi := resp.Panic
 	e.run.Count("panic_site", pi.Site())
 	if pi.InRepo {
+		var wit any
+		if witness != nil {
+			wit = witness()
+		}
 		e.run.Violation("C08:panic:"+pi.Site(), caseIdx, where+": the handler panicked ("+pi.Value+") at "+pi.Frame,
-			map[string]any{"router": e.rn, "where": where, "case": witness, "stack": trunc(pi.Stack, 2500)})
+			map[string]any{"router": e.rn, "where": where, "case": wit, "stack": trunc(pi.Stack, 2500)})
 	} else {
 		e.run.HarnessBug("panic outside library code during " + where + ": " + pi.Value + " at " + pi.Frame)
 	}
